@@ -59,7 +59,8 @@ Definition c01_negative_step (pre : ostate) (st : ostep) : list N :=
   then [108] else [].
 
 Definition c01_step (deny : list (N * N)) (pre : ostate) (st : ostep) : list N :=
-  (if nodes_ledger_ok (st_obs st) then [] else [101]) ++ c01_bind_step deny pre st ++ c01_negative_step pre st.
+  (if nodes_ledger_ok (st_obs st) then []
+   else if forallb (fun n => node_ledger_ok n || node_ledger_ok_known (st_obs st) n) (s_nodes (st_obs st)) then [151] else [101]) ++ c01_bind_step deny pre st ++ c01_negative_step pre st.
 
 (* ---- C02 ---- *)
 Definition app_queue (s : ostate) (a : N) : N := match find_app s a with Some ap => ap_queue ap | None => 0 end.
